@@ -4,9 +4,9 @@ func q(params map[string]int) *TierOpt { return &TierOpt{Params: params} }
 
 // qn: mailbox record-layer harnesses produce large array/UF queries that
 // z3 5.1 (z3-new) decides several times faster than 4.8.12.
-func qn(params map[string]int) *TierOpt { return &TierOpt{Params: params, Solver: "z3-new"} }
+func qn(params map[string]int) *TierOpt { return &TierOpt{Params: params, Solver: "portfolio"} }
 func qnT(params map[string]int, timeoutMs int) *TierOpt {
-	return &TierOpt{Params: params, Solver: "z3-new", Timeout: timeoutMs}
+	return &TierOpt{Params: params, Solver: "portfolio", Timeout: timeoutMs}
 }
 
 func P(kv ...interface{}) map[string]int {
@@ -138,5 +138,32 @@ var props = map[string]*Prop{
 		},
 		Assumptions: append([]string{"ideal AEAD (DESIGN.md 4.6)"}, commonAssumptions...),
 		Bounds:      []string{"plaintext length symbolic 0..65535; 2 (quick) / 3 (thorough) partial writes followed by complete ones, i.e. all 2-,3- and 4-way splits of the wire bytes"},
+	},
+	"C02": {
+		ID: "C02",
+		Runs: []Run{
+			{Pkg: "mailbox", Harness: "VH_C02_Step", MustReach: []string{"script", "accepted", "rejected"},
+				What:  "inductive step: reader in lock-step expecting record 0 or 1; relay input built from up to `segments` segments (honest slice / junk / other-direction slice / honest slice with one flipped byte), all offsets and lengths symbolic; one ReadMessage returns exactly the expected record or an error",
+				Quick: qn(P("segments", 1)), Thorough: qnT(P("segments", 2), 60000)},
+			{Pkg: "mailbox", Harness: "VH_C08_LockStep", MustReach: []string{"lockstep", "rotation"}, What: "after a correct record both ends are in lock-step again (closes the induction), replayed ciphertext rejected",
+				Quick: qn(P("maxlen", 3))},
+			{Pkg: "mailbox", Harness: "VH_C08_Frame", MustReach: []string{"frame"}, What: "directions use disjoint state and complementary keys", Quick: qn(nil)},
+		},
+		Assumptions: append([]string{"ideal AEAD with atomic ciphertexts, ideal HKDF (DESIGN.md 4.6): distinct ciphertext streams never coincide, a flipped ciphertext byte never equals an honest one", "adversary = edit scripts over the honest byte streams plus invented junk; an adversary who knows a key is outside the claim"}, commonAssumptions...),
+		Bounds:      []string{"record lengths symbolic 0..65535; 1 (quick) / 2 (thorough) script segments with symbolic offsets; single-byte flips with symbolic position and mask; the check stops at the first error"},
+		Outside:     []string{"computational strength of ChaCha20-Poly1305", "behaviour after the first read error"},
+	},
+	"C08": {
+		ID: "C08",
+		Runs: []Run{
+			{Pkg: "mailbox", Harness: "VH_C08_LockStep", MustReach: []string{"lockstep", "rotation"}, What: "one Encrypt || one Decrypt from any lock-step state, nonce symbolic 0..999 incl. the rotation boundary; nonce freshness; replay rejected",
+				Quick: qn(P("maxlen", 3)), Thorough: qn(P("maxlen", 16))},
+			{Pkg: "mailbox", Harness: "VH_C08_Frame", MustReach: []string{"frame"}, What: "frame condition: one direction's traffic leaves the other direction untouched; keys complementary and distinct", Quick: qn(nil)},
+			{Pkg: "mailbox", Harness: "VH_C08_NoPlaintext", MustReach: []string{"provenance"}, What: "syntactic provenance: no wire byte of a record (symbolic length) depends on the plaintext stream", Quick: qn(nil)},
+			{Pkg: "mailbox", Harness: "VH_C08_ManyRecords", MustReach: []string{"many"}, What: "concrete-in-engine run across rotation boundaries (1100 records quick, 2500 thorough)",
+				Quick: &TierOpt{Params: P("records", 1100), Solver: "portfolio", MaxSteps: 20_000_000}, Thorough: &TierOpt{Params: P("records", 2500), Solver: "portfolio", MaxSteps: 40_000_000}},
+		},
+		Assumptions: append([]string{"ideal AEAD / HKDF (DESIGN.md 4.6); HKDF output freshness is assumed, the lock-step of both ends is what is checked"}, commonAssumptions...),
+		Bounds:      []string{"nonce symbolic in [0,999], key and salt symbolic; plaintext 0..3 (quick) / 0..16 bytes in the step; record length symbolic 0..65535 in the provenance check"},
 	},
 }
